@@ -12,7 +12,7 @@ ID = 'C09'
 RULE = ('Hypothesis workbook specs loaded from xlsx files (and, for plain constants, from dicts) with the full constant '
         'alphabet: text that looks like a formula (=x, =a"b, {=x}), like an error (#N/A as text), like the blank marker '
         '(#EMPTY), with quotes/apostrophes/newlines; numbers incl. -0.0, 1e-7, > 2^53; logicals; errors; blanks; sheet names '
-        'of every class incl. ones that need quoting; all reference forms, array formulas, names. Oracle: d1 = to_dict(m); '
+        'of every class incl. ones that need quoting; a dictionary-path part whose numeric constants are arbitrary IEEE doubles (more than 15 decimals, subnormal, > 1e300); all reference forms, array formulas, names. Oracle: d1 = to_dict(m); '
         'm2 = from_dict(json round trip of d1): (a) calculate() of m and m2 agree on every cell, and m2 agrees with the '
         'independent evaluator; (b) to_dict(m2) == d1 and a third trip equals the second; (c) every exported formula string '
         'parses and its expr equals the exported text. Non-trivial = workbook has a tricky constant or sheet name or an array '
@@ -255,7 +255,19 @@ def _plain(tier):
                      G.specs(tier, max_books=2, wholecols=False), st.sampled_from(['file', 'dict']))
 
 
-STRATEGIES = {'tricky': _tricky, 'plain': _plain}
+# floats that never passed through the xlsx reader (which keeps 15 decimals): the dictionary path must keep every bit
+RAWFLOATS = [0.1 + 0.2, 4e-17, 1.2345678901234567e-05, 1.0 + 2.0 ** -52, 1.0 - 2.0 ** -53, 2.0 / 3.0, 1e-300, 5e-324, 1.7976931348623157e308,
+             123456.78901234568, -7.000000000000001, 0.30000000000000004, 2.0 ** -40, 1e-16, 9007199254740993.0]
+
+
+def _dictnums(tier):
+    const = st.one_of(st.sampled_from(RAWFLOATS), st.sampled_from(RAWFLOATS).map(lambda x: -x),
+                      st.floats(allow_nan=False, allow_infinity=False, width=64),
+                      st.floats(min_value=-1.0, max_value=1.0, allow_nan=False), st.sampled_from(G.NUM_CONST))
+    return G.specs(tier, max_books=1, wholecols=False, const=const, max_cells=8).map(lambda spec: {'k': 'spec', 'spec': spec, 'path': 'dict'})
+
+
+STRATEGIES = {'tricky': _tricky, 'plain': _plain, 'dictnums': _dictnums}
 
 
 def parts(tier, seed):
@@ -263,4 +275,5 @@ def parts(tier, seed):
     return [
         ('hyp', 'tricky', 800 if q else 8000, 10),
         ('hyp', 'plain', 480 if q else 5000, 10),
+        ('hyp', 'dictnums', 480 if q else 5000, 10),
     ]
